@@ -21,6 +21,7 @@ CLAUSE = CLAUSE + (" cache_network_add_page updates the subpage range the page w
 CLAUSE = CLAUSE + (" (RF-CMP) every comparison of the current position with the stop position is inclusive in the walk direction "
                    "(forward >=, backward <=).")
 CLAUSE = CLAUSE + (" (RF-WIDTH) the subpage range the walk iterates over is stored in fields wide enough for every subcode.")
+CLAUSE = CLAUSE + (" The DFA minimisation compares the acceptance of every pair of successor states it examines, inside the pair loop.")
 NOT_DECIDED = ("that exactly the matching pages are found, in order, each once (values); the regex engine's matching semantics; "
                "haystack construction.")
 
@@ -93,6 +94,7 @@ def run(ctx, run):
     _casefold_endpoints(ctx, run)
     _restart_inside_failed_attempt(ctx, run)
     _stop_inclusive(ctx, run)
+    _minimisation_keeps_acceptance(ctx, run)
     # the walk visits the subpage range the statistics recorded: the range must not be truncated (shared with C10)
     from . import C10
     C10._subno_range_fits(ctx, run)
@@ -439,3 +441,58 @@ def _stop_inclusive(ctx, run):
                           "not-found" % (name, op, ex.pretty(f, i)[:30], want), ex.loc(f, i))
         else:
             run.holds("RF-CMP", key, "%d comparisons with the stop position, all `%s`" % (n, want), "%s:%d" % (f.file, f.line))
+
+
+def _minimisation_keeps_acceptance(ctx, run):
+    """RF-CORR: _ure_merge_equiv() merges DFA states it proves equivalent by walking pairs of
+    successor states.  Two states are equivalent only if *every* pair reached has the same
+    acceptance; the test `ls->accepting != rs->accepting` therefore sits inside the loop over the
+    pair list, on the pair being examined (both sides read through the pair's own state
+    pointers).  Tested for the first pair only, an accepting and a non-accepting successor are
+    merged and patterns like `yaa+` stop matching."""
+    from .. import loops
+    P = ctx.prog
+    f = P.need("_ure_merge_equiv", URE)
+    run.touch(f)
+    L = loops.natural_loops(f)
+    if len(L) < 3:
+        raise AnalysisBroken("_ure_merge_equiv: loop nest not found")
+    # the innermost loops; the pair loop is the one whose body compares trans_used of two states
+    found = False
+    where = None
+    for h, body in L.items():
+        cmp_trans = cmp_acc = False
+        for b in body:
+            t = f.blocks[b].term
+            if not t or "cond" not in t:
+                continue
+            for j in ex.walk(f, t["cond"]):
+                e = f.exprs[j]
+                if e["k"] == "bin" and e["op"] in ("!=", "=="):
+                    sides = [f.exprs[ex.skip(f, c)] for c in e["c"]]
+                    sides = [s if s["k"] != "cast" else f.exprs[ex.skip(f, s["c"][0])] for s in sides]
+                    if all(s["k"] == "mem" for s in sides):
+                        roots = [f.exprs[ex.root(f, ex.skip(f, c))].get("name") if ex.root(f, ex.skip(f, c)) is not None else None for c in e["c"]]
+                        if sides[0]["member"] == sides[1]["member"] == "trans_used" and roots[0] != roots[1]:
+                            cmp_trans = True
+                            where = (h, roots)
+                        if sides[0]["member"] == sides[1]["member"] == "accepting" and roots[0] != roots[1]:
+                            if where is None or set(roots) == set(where[1]) or True:
+                                cmp_acc = (cmp_acc or set(), roots)[1] and True
+                                acc_roots = roots
+        if cmp_trans:
+            # smallest loop containing the trans_used comparison is the pair loop
+            if where and (not found or len(body) < found[0]):
+                found = (len(body), cmp_acc, h, where[1], locals().get("acc_roots"))
+    key = "RF-CORR:_ure_merge_equiv:acceptance-per-pair"
+    if not found:
+        raise AnalysisBroken("_ure_merge_equiv: the pair loop (comparison of trans_used) was not found")
+    size, has_acc, h, troots, aroots = found
+    if has_acc and aroots is not None and set(aroots) == set(troots):
+        run.holds("RF-CORR", key, "inside the pair loop: %s->accepting != %s->accepting next to the trans_used comparison" % tuple(troots),
+                  "%s:%d" % (f.file, f.line))
+    else:
+        run.violation("RF-CORR", key, "the loop over the pairs of successor states compares their number of transitions but not their "
+                      "acceptance (`%s->accepting != %s->accepting` is missing there): an accepting and a non-accepting state "
+                      "reached from the two candidates are taken for equivalent and merged - the minimised automaton no longer "
+                      "accepts the language of the pattern" % tuple(troots), "%s:%d" % (f.file, f.line))
